@@ -146,4 +146,22 @@ def runOps (par : Parent) : List Op → Parent × List (Except PyErr Str)
     let (p2, os) := runOps p1 ops
     (p2, o :: os)
 
+/-! ### several parent groups of one file, served in turn -/
+
+/-- the parent groups of a file, addressed by number -/
+abbrev FileG := List Parent
+
+/-- one request addressed to parent number `p` (a request to a parent that does not exist changes nothing) -/
+def stepAt (f : FileG) (p : Nat) (op : Op) : FileG × Except PyErr Str :=
+  let r := stepOp (f.getD p []) op
+  (f.set p r.1, r.2)
+
+/-- a history of addressed requests; every output is tagged with the parent it was addressed to -/
+def runFile (f : FileG) : List (Nat × Op) → FileG × List (Nat × Except PyErr Str)
+  | [] => (f, [])
+  | (p, op) :: h =>
+    let r := stepAt f p op
+    let rest := runFile r.1 h
+    (rest.1, (p, r.2) :: rest.2)
+
 end Usid.Grp
